@@ -1,32 +1,13 @@
 /-
-Statements: the code `lowerS` / `lowerB` / `lowerFor` emit (Model/MpclLower.lean)
-computes what the reference interpreter computes (`lower_stmt_sound`), by
-simultaneous induction on the fuel.
+Statements: the code `lowerS` / `lowerB` / `lowerFor` (and, through them,
+`lowerE` / `lowerCall` / ..) emit (Model/MpclLower.lean) computes what the
+reference interpreter computes (`lower_all_sound`), by simultaneous induction on
+the fuel over all mutually recursive lowering functions.
 -/
-import MpcVerif.Proofs.MpclSsaTree
+import MpcVerif.Proofs.MpclSsaCall
 
 namespace Mpc.Mpcl.Ssa
 open Mpc.Mpcl
-
-/-- A scalar value (not an aggregate). -/
-def ScalarV : Val → Prop
-  | .agg _ => False
-  | _ => True
-
-theorem scalarV_decode {t : Ty} {w : Nat} (h : sbits t = some w) (a : Nat) : ScalarV (t.decode a) := by
-  cases t <;> simp [sbits] at h <;> simp [Ty.decode, ScalarV]
-
-/-- The interpreter's outcome of a block vs the lowered block at the store
-`st'` reached by its code. -/
-def OutRel (st' : Nat → Nat) (r : LRes) : Outcome → Prop
-  | .normal env' => r.tree.eval st' = none ∧ ∃ n', r.nms = some n' ∧ Rel st' n' env'
-  | .returned vals => r.tree.eval st' = some (vals.map Val.encode) ∧ ∀ v ∈ vals, ScalarV v
-
-/-- What lowering a block guarantees when its code runs from `st` to `st'`. -/
-def Post (next : Nat) (r : LRes) (st st' : Nat → Nat) (exec : Nat → Option Outcome) : Prop :=
-  next ≤ r.next ∧ Frame next st st' ∧ NoRet r.code ∧ r.tree.Below r.next ∧ TreeBd st' r.tree ∧
-  (∀ n', r.nms = some n' → Below r.next n' ∧ ∃ env', Rel st' n' env') ∧
-  ∃ fi o, exec fi = some o ∧ OutRel st' r o
 
 theorem execS_mono (P : Prog) {f f' : Nat} (hle : f ≤ f') (s : Stmt) (env : Env) (o : Outcome)
     (h : execS P f s env = some o) : execS P f' s env = some o := by
@@ -41,603 +22,572 @@ theorem execFor_mono (P : Prog) {f f' : Nat} (hle : f ≤ f') (i : String) (cur 
   | refl => exact h
   | step _ ih => exact (fuel_mono_succ P _).2.2.2 i cur c hi st body env o ih
 
-theorem mov_step {a : SArg} {id w v wa : Nat} {st st' : Nat → Nat} (h : ssaSteps [movI a id w] st = some st')
-    (ha : argVal st a = (v, wa)) (hv : v < 2 ^ w) : st' = fun j => if j = id then v else st j := by
-  obtain ⟨r, hev, hst⟩ := ssaSteps_one h
-  simp only [List.map_cons, List.map_nil, ha, evalOp, Option.some.injEq] at hev
-  rw [Nat.mod_eq_of_lt hv] at hev
-  subst hev
-  exact hst
-
-theorem zeroArg_val {t : Ty} {z : SArg} (h : zeroArg t = some z) (st : Nat → Nat) : ∃ b, argVal st z = (0, b) := by
+theorem zeroArg_val (t : Ty) (st : Nat → Nat) : ∃ b, argVal st (zeroArg t) = (0, b) := by
   cases t with
-  | bool => simp [zeroArg] at h; subst h; exact ⟨1, by simp [argVal]⟩
-  | int w => simp [zeroArg] at h; subst h; exact ⟨max w 32, by simp [argVal, constWires_self]⟩
-  | uint w => simp [zeroArg] at h; subst h; exact ⟨max w 32, by simp [argVal, constWires_self]⟩
-  | arr _ _ => simp [zeroArg] at h
-  | struct _ => simp [zeroArg] at h
-
-theorem zero_decode {t : Ty} {w : Nat} (h : sbits t = some w) : t.zero = t.decode 0 := by
-  cases t <;> simp [sbits] at h <;> simp [Ty.zero, Ty.decode]
-
-theorem bindRel_val {st : Nat → Nat} {id w a : Nat} {t : Ty} (hw : sbits t = some w) (hs : st id = a) (ha : a < 2 ^ w) :
-    BindRel st (.val id t) (t.decode a) := ⟨w, hw, by rw [hs]; exact ha, by rw [hs]⟩
-
-/-- `return e1, .., en`. -/
-theorem lowerRet_sound (P : Prog) : ∀ (es : List Expr) (nm : NEnv) (next : Nat) (rs : List (Nat × Nat))
-    (code : List SInstr) (next' : Nat) (env : Env) (st st' : Nat → Nat),
-    lowerRet nm es next = some (rs, code, next') → Rel st nm env → Below next nm →
-    ssaSteps code st = some st' →
-    ∃ f vals, es.mapM (fun e => evalE P f e env) = some vals ∧
-      rs.map (fun p => (st' p.1, p.2)) = vals.map Val.encode ∧ (∀ v ∈ vals, ScalarV v) ∧
-      Frame next st st' ∧ next ≤ next' ∧ NoRet code ∧ (∀ p ∈ rs, p.1 < next') ∧ (∀ p ∈ rs, st' p.1 < 2 ^ p.2)
-  | [], nm, next, rs, code, next', env, st, st', h, _, _, hrun => by
-    simp only [lowerRet, Option.some.injEq, Prod.mk.injEq] at h
-    obtain ⟨h1, h2, h3⟩ := h
-    subst h1; subst h2; subst h3
-    simp only [ssaSteps, Option.some.injEq] at hrun; subst hrun
-    exact ⟨0, [], by simp, rfl, (fun v hv => by cases hv), Frame.refl _ _, Nat.le_refl _, NoRet_nil,
-      (fun p hp => by cases hp), (fun p hp => by cases hp)⟩
-  | e :: es, nm, next, rs, code, next', env, st, st', h, hrel, hbel, hrun => by
-    simp only [lowerRet] at h
-    cases hl : lowerE nm e next with
-    | none => simp [hl] at h
-    | some q =>
-      obtain ⟨aa, t, ce, n1⟩ := q
-      simp only [hl] at h
-      cases hw : sbits t with
-      | none => simp [hw] at h
-      | some w =>
-        simp only [hw] at h
-        cases hr : lowerRet nm es (n1 + 1) with
-        | none => simp [hr] at h
-        | some q2 =>
-          obtain ⟨rs2, cs, n2⟩ := q2
-          simp only [hr, Option.some.injEq, Prod.mk.injEq] at h
-          obtain ⟨h1, h2, h3⟩ := h
-          subst h1; subst h2; subst h3
-          obtain ⟨stm, hrun12, hrun3⟩ := ssaSteps_split hrun
-          obtain ⟨st1, hrun1, hrun2⟩ := ssaSteps_split hrun12
-          obtain ⟨w1, wa, a, f1, hw1, harg, hlt, hle, _, _, he, hfr1, hn1, hnr1, _⟩ :=
-            lowerE_sound P e nm next aa t ce n1 env st st1 hl hrel hbel hrun1
-          rw [hw] at hw1; cases hw1
-          have haw : a < 2 ^ w := Nat.lt_of_lt_of_le hlt (pow_le_of_le hle)
-          have hstm := mov_step hrun2 harg haw
-          have hfrm : Frame n1 st1 stm := by rw [hstm]; exact Frame_set (Nat.le_refl _)
-          have hfr01 : Frame next st stm := hfr1.trans hfrm hn1
-          obtain ⟨f2, vals, hm, hmap, hsc, hfr2, hn2, hnr2, hrs2, hbd2⟩ :=
-            lowerRet_sound P es nm (n1 + 1) rs2 cs n2 env stm st' hr (hrel.frame hbel hfr01)
-              (hbel.mono (by omega)) hrun3
-          have hst'n1 : st' n1 = a := by rw [hfr2 n1 (by omega), hstm]; simp
-          refine ⟨max f1 f2, t.decode a :: vals, ?_, ?_, ?_, hfr01.trans hfr2 (by omega), by omega, ?_, ?_, ?_⟩
-          · have e1 := evalE_mono P (Nat.le_max_left f1 f2) e env _ he
-            have e2 := mapM_mono (fun e => evalE P f2 e env) (fun e => evalE P (max f1 f2) e env)
-              (fun x v hv => evalE_mono P (Nat.le_max_right f1 f2) x env v hv) es vals hm
-            simp [List.mapM_cons, e1, e2]
-          · simp only [List.map_cons, hst'n1, hmap, encode_decode hw haw]
-          · intro v hv
-            rcases List.mem_cons.1 hv with e | e
-            · subst e; exact scalarV_decode hw a
-            · exact hsc v e
-          · exact NoRet_append (NoRet_append hnr1 (NoRet_one (by simp [movI]))) hnr2
-          · intro p hp
-            rcases List.mem_cons.1 hp with e | e
-            · subst e; simp only; omega
-            · exact hrs2 p e
-          · intro p hp
-            rcases List.mem_cons.1 hp with e | e
-            · subst e; simp only; rw [hst'n1]; exact haw
-            · exact hbd2 p e
+  | bool => exact ⟨1, by simp [zeroArg, argVal]⟩
+  | int w => exact ⟨max w 32, by simp [zeroArg, argVal, constWires_self]⟩
+  | uint w => exact ⟨max w 32, by simp [zeroArg, argVal, constWires_self]⟩
+  | arr n e => exact ⟨(Ty.arr n e).bits, by simp [zeroArg, argVal]⟩
+  | struct fs => exact ⟨(Ty.struct fs).bits, by simp [zeroArg, argVal]⟩
 
 /-- Outcome of a basic statement (`var`, `:=`, `=`): it falls through with the
 new bindings. -/
 theorem post_basic {next n1 : Nat} {nm' : NEnv} (env' : Env) {code : List SInstr}
     {st st' : Nat → Nat} {exec : Nat → Option Outcome} (fi : Nat)
     (hn : next ≤ n1) (hfr : Frame next st st') (hnr : NoRet code)
-    (hbel : Below (n1 + 1) nm') (hrel : Rel st' nm' env') (hex : exec fi = some (.normal env')) :
-    Post next ⟨some nm', .fall, code, n1 + 1⟩ st st' exec :=
-  ⟨by simp only; omega, hfr, hnr, trivial, trivial,
+    (hbel : Below n1 nm') (hrel : Rel st' nm' env') (hex : exec fi = some (.normal env')) :
+    Post next ⟨some nm', .fall, code, n1⟩ st st' exec :=
+  ⟨hn, hfr, hnr, trivial, trivial,
     (fun n' hn' => by cases hn'; exact ⟨hbel, env', hrel⟩),
     fi, .normal env', hex, rfl, nm', rfl, hrel⟩
 
-/-- Statements, blocks and unrolled loops of the fragment: if the emitted code
-runs from `st` to `st'`, the interpreter is defined on the block and its outcome
-is the one the lowered block describes at `st'`. -/
-theorem lower_stmt_sound (P : Prog) : ∀ f : Nat,
-    (∀ (s : Stmt) (nm : NEnv) (next : Nat) (r : LRes) (env : Env) (st st' : Nat → Nat),
-      lowerS f nm next s = some r → Rel st nm env → Below next nm → ssaSteps r.code st = some st' →
-      Post next r st st' (fun fi => execS P fi s env)) ∧
-    (∀ (ss : List Stmt) (nm : NEnv) (next : Nat) (r : LRes) (env : Env) (st st' : Nat → Nat),
-      lowerB f nm next ss = some r → Rel st nm env → Below next nm → ssaSteps r.code st = some st' →
-      Post next r st st' (fun fi => execB P fi ss env)) ∧
-    (∀ (i : String) (cur : Int) (c : Cmp) (hi stp : Int) (body : List Stmt) (nm : NEnv) (next : Nat) (r : LRes)
-      (env : Env) (st st' : Nat → Nat),
-      lowerFor f i cur c hi stp body nm next = some r → Rel st nm env → Below next nm →
-      ssaSteps r.code st = some st' →
-      Post next r st st' (fun fi => execFor P fi i cur c hi stp body env)) := by
+/-- All expressions, given the smaller fuel. -/
+theorem expr_succ (P : Prog) (f : Nat) (ihE : ESound P f) (ihC : CallSound P f) : ESound P (f + 1) := by
+  intro e
+  cases e with
+  | lit t n => exact lit_case P f t n
+  | var x => exact var_case P f x
+  | bin op a b => exact bin_case P f ihE op a b
+  | shift l a k => exact shift_case P f ihE l a k
+  | not a => exact not_case P f ihE a
+  | neg a => exact neg_case P f ihE a
+  | cast t a => exact cast_case P f ihE t a
+  | idx a i => exact idx_case P f ihE a i
+  | fld a k => exact fld_case P f ihE a k
+  | call g args => exact call_case P f ihC g args
+
+theorem stmt_succ (P : Prog) (f : Nat) (ihE : ESound P f) (ihC : CallSound P f) (ihR : RetSound P f)
+    (ihB : BSound P f) (ihF : FSound P f) : SSound P (f + 1) := by
+  intro s nm next r env st st' h hrel hbel hrun
+  cases s with
+  | decl x t init =>
+    cases init with
+    | none =>
+      simp only [lowerS, Option.some.injEq] at h
+      subst h
+      obtain ⟨b, hb⟩ := zeroArg_val t st
+      have hst' := mov_step hrun hb (two_pow_pos _)
+      have hfr : Frame next st st' := by rw [hst']; exact Frame_set (Nat.le_refl _)
+      have hs0 : st' next = 0 := by rw [hst']; simp
+      refine post_basic (env.declare x (t.decode 0)) 1 (Nat.le_succ _) hfr (NoRet_one (by simp [movI]))
+        ((hbel.mono (Nat.le_succ _)).declare (by simp [BelowB])) ?_ ?_
+      · exact Rel.declare (bindRel_val hs0 (two_pow_pos _)) (hrel.frame hbel hfr)
+      · simp [execS, zero_decode_gen t]
+    | some e =>
+      simp only [lowerS] at h
+      cases hl : lowerE P f nm e next with
+      | none => simp [hl] at h
+      | some q =>
+        obtain ⟨aa, te, ce, n1⟩ := q
+        simp only [hl] at h
+        split at h
+        · rename_i hte
+          have := tyEq_eq hte; subst this
+          simp only [Option.some.injEq] at h
+          subst h
+          obtain ⟨st1, hrun1, hrun2⟩ := ssaSteps_split hrun
+          obtain ⟨wa, a, f1, harg, hlt, hle, _, _, he, hfr1, hn1, hnr1, _⟩ :=
+            ihE e nm next aa t ce n1 env st st1 hl hrel hbel hrun1
+          have haw : a < 2 ^ t.bits := Nat.lt_of_lt_of_le hlt (pow_le_of_le hle)
+          have hst' := mov_step hrun2 harg haw
+          have hfr : Frame next st st' := hfr1.trans (by rw [hst']; exact Frame_set (Nat.le_refl _)) hn1
+          have hs0 : st' n1 = a := by rw [hst']; simp
+          refine post_basic (env.declare x (t.decode a)) (f1 + 1) (by omega) hfr
+            (NoRet_append hnr1 (NoRet_one (by simp [movI])))
+            ((hbel.mono (by omega)).declare (by simp [BelowB])) ?_ ?_
+          · exact Rel.declare (bindRel_val hs0 haw) (hrel.frame hbel hfr)
+          · simp [execS, he, hasTy_decode_gen]
+        · cases h
+  | define xs e =>
+    match xs, e, h with
+    | [x], e, h =>
+      simp only [lowerS] at h
+      cases hl : lowerE P f nm e next with
+      | none => simp [hl] at h
+      | some q =>
+        obtain ⟨aa, te, ce, n1⟩ := q
+        simp only [hl] at h
+        split at h
+        · cases h
+        · rename_i hnc
+          simp only [Option.some.injEq] at h
+          subst h
+          obtain ⟨st1, hrun1, hrun2⟩ := ssaSteps_split hrun
+          obtain ⟨wa, a, f1, harg, hlt, hle, _, _, he, hfr1, hn1, hnr1, _⟩ :=
+            ihE e nm next aa te ce n1 env st st1 hl hrel hbel hrun1
+          have haw : a < 2 ^ te.bits := Nat.lt_of_lt_of_le hlt (pow_le_of_le hle)
+          have hst' := mov_step hrun2 harg haw
+          have hfr : Frame next st st' := hfr1.trans (by rw [hst']; exact Frame_set (Nat.le_refl _)) hn1
+          have hs0 : st' n1 = a := by rw [hst']; simp
+          refine post_basic (env.declare x (te.decode a)) (f1 + 1) (by omega) hfr
+            (NoRet_append hnr1 (NoRet_one (by simp [movI])))
+            ((hbel.mono (by omega)).declare (by simp [BelowB])) ?_ ?_
+          · exact Rel.declare (bindRel_val hs0 haw) (hrel.frame hbel hfr)
+          · simp [execS, he]
+    | x :: y :: xs, .call g args, h =>
+      simp only [lowerS] at h
+      cases hc : lowerCall P f nm g args next with
+      | none => simp [hc] at h
+      | some q =>
+        obtain ⟨rs, cc, n1⟩ := q
+        simp only [hc] at h
+        cases hd : defineAllVals nm (x :: y :: xs) rs n1 with
+        | none => simp [hd] at h
+        | some q2 =>
+          obtain ⟨nm', cd, n2⟩ := q2
+          simp only [hd, Option.some.injEq] at h
+          subst h
+          obtain ⟨st1, hrun1, hrun2⟩ := ssaSteps_split hrun
+          obtain ⟨fi, hev, hbd, hrsb, hfr1, hn1, hnr1⟩ := ihC nm g args next rs cc n1 env st st1 hc hrel hbel hrun1
+          obtain ⟨hlen, hrel2, hbel2, hfr2, hn2, hnr2⟩ :=
+            defineAllVals_sound (x :: y :: xs) rs nm nm' n1 n2 cd env st1 st' hd (hrel.frame hbel hfr1)
+              (hbel.mono hn1) hbd hrsb hrun2
+          refine post_basic _ (fi + 1) (by omega) (hfr1.trans hfr2 hn1) (NoRet_append hnr1 hnr2) hbel2 hrel2 ?_
+          have hne : rs.length ≠ 1 := by rw [← hlen]; simp
+          rw [packResults_many _ _ (resVals_length st1 rs) hne] at hev
+          simp only [execS, hev]
+          simp [hlen, resVals_length]
+    | [], _, h => simp [lowerS] at h
+    | _ :: _ :: _, .lit _ _, h => simp [lowerS] at h
+    | _ :: _ :: _, .var _, h => simp [lowerS] at h
+    | _ :: _ :: _, .bin _ _ _, h => simp [lowerS] at h
+    | _ :: _ :: _, .shift _ _ _, h => simp [lowerS] at h
+    | _ :: _ :: _, .not _, h => simp [lowerS] at h
+    | _ :: _ :: _, .neg _, h => simp [lowerS] at h
+    | _ :: _ :: _, .cast _ _, h => simp [lowerS] at h
+    | _ :: _ :: _, .idx _ _, h => simp [lowerS] at h
+    | _ :: _ :: _, .fld _ _, h => simp [lowerS] at h
+  | assign lvs e =>
+    match lvs, e, h with
+    | [lv], e, h =>
+      simp only [lowerS] at h
+      cases hl : lowerE P f nm e next with
+      | none => simp [hl] at h
+      | some q =>
+        obtain ⟨aa, te, ce, n1⟩ := q
+        simp only [hl] at h
+        cases ha : assignVal nm lv aa te n1 with
+        | none => simp [ha] at h
+        | some q2 =>
+          obtain ⟨nm', ca, n2⟩ := q2
+          simp only [ha, Option.some.injEq] at h
+          subst h
+          obtain ⟨st1, hrun1, hrun2⟩ := ssaSteps_split hrun
+          obtain ⟨wa, a, f1, harg, hlt, hle, _, _, he, hfr1, hn1, hnr1, _⟩ :=
+            ihE e nm next aa te ce n1 env st st1 hl hrel hbel hrun1
+          have haw : a < 2 ^ te.bits := Nat.lt_of_lt_of_le hlt (pow_le_of_le hle)
+          obtain ⟨env', hat, hrel2, hbel2, hfr2, hn2, hnr2⟩ :=
+            assignVal_sound P ha (hrel.frame hbel hfr1) (hbel.mono hn1) harg haw hrun2
+          refine post_basic env' (f1 + 2) (by omega) (hfr1.trans hfr2 hn1) (NoRet_append hnr1 hnr2) hbel2 hrel2 ?_
+          simp only [execS, evalE_mono P (Nat.le_succ f1) e env _ he, hat f1, Option.map_some]
+    | l1 :: l2 :: lvs, .call g args, h =>
+      simp only [lowerS] at h
+      cases hc : lowerCall P f nm g args next with
+      | none => simp [hc] at h
+      | some q =>
+        obtain ⟨rs, cc, n1⟩ := q
+        simp only [hc] at h
+        cases hd : assignAllVals nm (l1 :: l2 :: lvs) rs n1 with
+        | none => simp [hd] at h
+        | some q2 =>
+          obtain ⟨nm', cd, n2⟩ := q2
+          simp only [hd, Option.some.injEq] at h
+          subst h
+          obtain ⟨st1, hrun1, hrun2⟩ := ssaSteps_split hrun
+          obtain ⟨fi, hev, hbd, hrsb, hfr1, hn1, hnr1⟩ := ihC nm g args next rs cc n1 env st st1 hc hrel hbel hrun1
+          obtain ⟨env', hall, hrel2, hbel2, hfr2, hn2, hnr2⟩ :=
+            assignAllVals_sound P (l1 :: l2 :: lvs) rs nm nm' n1 n2 cd env st1 st' hd (hrel.frame hbel hfr1)
+              (hbel.mono hn1) hbd hrsb hrun2
+          have hlen : rs.length ≠ 1 := by
+            intro h1
+            match rs, h1, hd with
+            | [p], _, hd =>
+              obtain ⟨id, t⟩ := p
+              simp only [assignAllVals] at hd
+              cases h3 : assignVal nm l1 (.var id t.bits) t n1 with
+              | none => simp [h3] at hd
+              | some q3 => obtain ⟨a1, a2, a3⟩ := q3; simp [h3] at hd
+          refine post_basic env' (fi + 2) (by omega) (hfr1.trans hfr2 hn1) (NoRet_append hnr1 hnr2) hbel2 hrel2 ?_
+          rw [packResults_many _ _ (resVals_length st1 rs) hlen] at hev
+          simp only [execS, evalE_mono P (Nat.le_succ fi) _ env _ hev, hall fi, Option.map_some]
+    | [], _, h => simp [lowerS] at h
+    | _ :: _ :: _, .lit _ _, h => simp [lowerS] at h
+    | _ :: _ :: _, .var _, h => simp [lowerS] at h
+    | _ :: _ :: _, .bin _ _ _, h => simp [lowerS] at h
+    | _ :: _ :: _, .shift _ _ _, h => simp [lowerS] at h
+    | _ :: _ :: _, .not _, h => simp [lowerS] at h
+    | _ :: _ :: _, .neg _, h => simp [lowerS] at h
+    | _ :: _ :: _, .cast _ _, h => simp [lowerS] at h
+    | _ :: _ :: _, .idx _ _, h => simp [lowerS] at h
+    | _ :: _ :: _, .fld _ _, h => simp [lowerS] at h
+  | ifte c th el =>
+    simp only [lowerS] at h
+    cases hl : lowerE P f nm c next with
+    | none => simp [hl] at h
+    | some q =>
+      obtain ⟨ac, tc, cc, n1⟩ := q
+      simp only [hl] at h
+      cases ac with
+      | var cid cw =>
+        cases tc with
+        | bool =>
+          simp only at h
+          cases hlt : lowerB P f ([] :: nm) n1 th with
+          | none => simp [hlt] at h
+          | some rt =>
+            simp only [hlt] at h
+            cases hlf : lowerB P f ([] :: nm) rt.next el with
+            | none => simp [hlf] at h
+            | some rf =>
+              simp only [hlf] at h
+              cases hj : joinN cid (popN rt.nms) (popN rf.nms) rf.next with
+              | none => simp [hj] at h
+              | some q2 =>
+                obtain ⟨nms', cm, n4⟩ := q2
+                simp only [hj, Option.some.injEq] at h
+                subst h
+                -- split the run
+                obtain ⟨st3, hrun123, hrun4⟩ := ssaSteps_split hrun
+                obtain ⟨st2, hrun12, hrun3⟩ := ssaSteps_split hrun123
+                obtain ⟨st1, hrun1, hrun2⟩ := ssaSteps_split hrun12
+                obtain ⟨wa, a, fc, harg, hlta, hle, hor, _, he, hfr1, hn1, hnr1, hab⟩ :=
+                  ihE c nm next (.var cid cw) .bool cc n1 env st st1 hl hrel hbel hrun1
+                have hwa : wa = 1 := by
+                  rcases hor with e | e
+                  · simpa [Ty.bits] using e
+                  · simp [SArg.isConst] at e
+                subst hwa
+                simp only [argVal, SStore.get, Prod.mk.injEq] at harg
+                obtain ⟨hca, _⟩ := harg
+                have hcid : cid < n1 := hab
+                have hrel1 : Rel st1 nm env := hrel.frame hbel hfr1
+                have hbel1 : Below n1 nm := hbel.mono hn1
+                have hbelp : Below n1 ([] :: nm) := Below.cons (BelowS_nil _) hbel1
+                obtain ⟨hnt, hfrt, hnrt, htbt, htbdt, hnmst, ft, ot, hext, horelt⟩ :=
+                  ihB th ([] :: nm) n1 rt ([] :: env) st1 st2 hlt hrel1.push hbelp hrun2
+                have hrel2 : Rel st2 ([] :: nm) ([] :: env) := (hrel1.push).frame hbelp hfrt
+                obtain ⟨hnf, hfrf, hnrf, htbf, htbdf, hnmsf, ff, of, hexf, horelf⟩ :=
+                  ihB el ([] :: nm) rt.next rf ([] :: env) st2 st3 hlf hrel2 (hbelp.mono hnt) hrun3
+                have hbt : ∀ n, popN rt.nms = some n → Below rf.next n := by
+                  intro n hn
+                  cases hrn : rt.nms with
+                  | none => simp [popN, hrn] at hn
+                  | some n0 =>
+                    simp only [popN, hrn, Option.map_some, Option.some.injEq] at hn
+                    subst hn
+                    exact ((hnmst n0 hrn).1.mono hnf).tail'
+                have hbf : ∀ n, popN rf.nms = some n → Below rf.next n := by
+                  intro n hn
+                  cases hrn : rf.nms with
+                  | none => simp [popN, hrn] at hn
+                  | some n0 =>
+                    simp only [popN, hrn, Option.map_some, Option.some.injEq] at hn
+                    subst hn
+                    exact (hnmsf n0 hrn).1.tail'
+                obtain ⟨hk4, hnr4, hbl4, hs4⟩ := joinN_sound cid (popN rt.nms) (popN rf.nms) rf.next nms' cm n4 hj
+                  (by omega) hbt hbf
+                obtain ⟨st4, hrun4', hfr4, hjt, hjf, hjex⟩ := hs4 st3
+                have hst4 : st4 = st' := by
+                  have := hrun4'.symm.trans hrun4
+                  exact Option.some.inj this
+                subst hst4
+                have hfr13 : Frame n1 st1 st3 := hfrt.trans hfrf hnt
+                have hfr14 : Frame n1 st1 st4 := hfr13.trans hfr4 (by omega)
+                have hc3 : st3 cid = a := by rw [hfr13 cid hcid]; exact hca
+                have hc4 : st4 cid = a := by rw [hfr14 cid hcid]; exact hca
+                have ha2 : a < 2 := by simpa using hlta
+                -- the trees at the final store
+                have hfr24 : Frame rt.next st2 st4 := hfrf.trans hfr4 hnf
+                have hevt : rt.tree.eval st4 = rt.tree.eval st2 := RTree.eval_frame hfr24 htbt
+                have hevf : rf.tree.eval st4 = rf.tree.eval st3 := RTree.eval_frame hfr4 htbf
+                -- related environments exist for the outgoing bindings of both branches
+                have hext3 : ∀ n, popN rt.nms = some n → ∃ env, Rel st3 n env := by
+                  intro n hn
+                  cases hrn : rt.nms with
+                  | none => simp [popN, hrn] at hn
+                  | some n0 =>
+                    simp only [popN, hrn, Option.map_some, Option.some.injEq] at hn
+                    subst hn
+                    obtain ⟨hb0, env0, hr0⟩ := hnmst n0 hrn
+                    exact ⟨env0.tail, (hr0.frame hb0 hfrf).tail⟩
+                have hexf3 : ∀ n, popN rf.nms = some n → ∃ env, Rel st3 n env := by
+                  intro n hn
+                  cases hrn : rf.nms with
+                  | none => simp [popN, hrn] at hn
+                  | some n0 =>
+                    simp only [popN, hrn, Option.map_some, Option.some.injEq] at hn
+                    subst hn
+                    obtain ⟨_, env0, hr0⟩ := hnmsf n0 hrn
+                    exact ⟨env0.tail, hr0.tail⟩
+                refine ⟨by simp only; omega, ?_, ?_, ?_, ?_, ?_, ?_⟩
+                · exact (hfr1.trans hfr14 hn1)
+                · exact NoRet_append (NoRet_append (NoRet_append hnr1 hnrt) hnrf) hnr4
+                · exact ⟨by simp only; omega, htbt.mono (by simp only; omega), htbf.mono (by simp only; omega)⟩
+                · exact ⟨TreeBd.frame hfr24 htbt htbdt, TreeBd.frame hfr4 htbf htbdf⟩
+                · intro n' hn'
+                  exact ⟨hbl4 n' hn', hjex hext3 hexf3 n' hn'⟩
+                · -- the interpreter
+                  have hdec : Ty.decode .bool a = .bool (a % 2 == 1) := rfl
+                  by_cases hcc : a % 2 = 1
+                  · -- condition true
+                    have hcv : evalE P fc c env = some (.bool true) := by rw [he, hdec]; simp [hcc]
+                    have hc3' : st3 cid % 2 = 1 := by rw [hc3]; exact hcc
+                    refine ⟨max fc ft + 1, ot.pop, ?_, ?_⟩
+                    · simp only [execS, evalE_mono P (Nat.le_max_left fc ft) c env _ hcv,
+                        execB_mono P (Nat.le_max_right fc ft) _ _ _ hext, Option.map_some]
+                    · cases ot with
+                      | normal envt =>
+                        obtain ⟨hev, n0, hrn, hr0⟩ := horelt
+                        have hpop : popN rt.nms = some n0.tail := by simp [popN, hrn]
+                        have hb0 := (hnmst n0 hrn).1
+                        obtain ⟨n', hn', hr'⟩ := hjt hc3' n0.tail envt.tail hpop ((hr0.frame hb0 hfrf).tail)
+                        refine ⟨?_, n', hn', hr'⟩
+                        simp only [RTree.eval, hc4, hcc, if_true, hevt, hev]
+                      | returned vals =>
+                        obtain ⟨lv, hev, hrv⟩ := horelt
+                        exact ⟨lv, by simp only [RTree.eval, hc4, hcc, if_true, hevt, hev], hrv⟩
+                  · -- condition false
+                    have hcv : evalE P fc c env = some (.bool false) := by rw [he, hdec]; simp [hcc]
+                    have hc3' : st3 cid % 2 ≠ 1 := by rw [hc3]; exact hcc
+                    refine ⟨max fc ff + 1, of.pop, ?_, ?_⟩
+                    · simp only [execS, evalE_mono P (Nat.le_max_left fc ff) c env _ hcv,
+                        execB_mono P (Nat.le_max_right fc ff) _ _ _ hexf, Option.map_some]
+                    · cases of with
+                      | normal envf =>
+                        obtain ⟨hev, n0, hrn, hr0⟩ := horelf
+                        have hpop : popN rf.nms = some n0.tail := by simp [popN, hrn]
+                        obtain ⟨n', hn', hr'⟩ := hjf hc3' n0.tail envf.tail hpop hr0.tail
+                        refine ⟨?_, n', hn', hr'⟩
+                        simp only [RTree.eval, hc4, hcc, if_false, hevf, hev]
+                      | returned vals =>
+                        obtain ⟨lv, hev, hrv⟩ := horelf
+                        exact ⟨lv, by simp only [RTree.eval, hc4, hcc, if_false, hevf, hev], hrv⟩
+        | int _ => simp at h
+        | uint _ => simp at h
+        | arr _ _ => simp at h
+        | struct _ => simp at h
+      | const _ _ _ _ _ => simp at h
+      | pat _ _ => simp at h
+      | k _ => simp at h
+  | «for» i lo c hi stp body =>
+    simp only [lowerS] at h
+    obtain ⟨h1, h2, h3, h4, h5, h6, fi, o, hex, horel⟩ := ihF i lo c hi stp body nm next r env st st' h hrel hbel hrun
+    exact ⟨h1, h2, h3, h4, h5, h6, fi + 1, o, by simp only [execS]; exact hex, horel⟩
+  | ret es =>
+    simp only [lowerS] at h
+    cases hl : lowerRet P f nm es next with
+    | none => simp [hl] at h
+    | some q =>
+      obtain ⟨rs, code, n1⟩ := q
+      simp only [hl, Option.some.injEq] at h
+      subst h
+      obtain ⟨f1, hm, hfr, hn1, hnr, hrs, hbd⟩ := ihR es nm next rs code n1 env st st' hl hrel hbel hrun
+      refine ⟨hn1, hfr, hnr, hrs, hbd, (fun n' hn' => by cases hn'), f1 + 1, .returned (resVals st' rs), ?_, ?_⟩
+      · simp [execS, hm]
+      · exact ⟨_, rfl, by simp [resVals, List.map_map, Function.comp]⟩
+
+theorem block_succ (P : Prog) (f : Nat) (ihS : SSound P f) (ihB : BSound P f) : BSound P (f + 1) := by
+  intro ss nm next r env st st' h hrel hbel hrun
+  cases ss with
+  | nil =>
+    simp only [lowerB, Option.some.injEq] at h
+    subst h
+    simp only [ssaSteps, Option.some.injEq] at hrun; subst hrun
+    exact ⟨Nat.le_refl _, Frame.refl _ _, NoRet_nil, trivial, trivial,
+      (fun n' hn' => by cases hn'; exact ⟨hbel, env, hrel⟩), 1, .normal env, by simp [execB], rfl, nm, rfl, hrel⟩
+  | cons s ss =>
+    simp only [lowerB] at h
+    cases hs : lowerS P f nm next s with
+    | none => simp [hs] at h
+    | some r1 =>
+      simp only [hs] at h
+      cases hrn : r1.nms with
+      | none =>
+        simp only [hrn] at h
+        cases ss with
+        | nil =>
+          simp only [Option.some.injEq] at h
+          subst h
+          obtain ⟨h1, h2, h3, h4, h5, h6, fi, o, hex, horel⟩ := ihS s nm next r1 env st st' hs hrel hbel hrun
+          refine ⟨h1, h2, h3, h4, h5, h6, fi + 1, o, ?_, horel⟩
+          simp only [execB, hex]
+          cases o with
+          | normal env' =>
+            obtain ⟨_, n', hn', _⟩ := horel
+            rw [hrn] at hn'; cases hn'
+          | returned vals => rfl
+        | cons _ _ => simp at h
+      | some nm1 =>
+        simp only [hrn] at h
+        cases hb : lowerB P f nm1 r1.next ss with
+        | none => simp [hb] at h
+        | some r2 =>
+          simp only [hb, Option.some.injEq] at h
+          subst h
+          obtain ⟨st1, hrun1, hrun2⟩ := ssaSteps_split hrun
+          obtain ⟨hn1, hfr1, hnr1, htb1, htbd1, hnms1, f1, o1, hex1, horel1⟩ :=
+            ihS s nm next r1 env st st1 hs hrel hbel hrun1
+          obtain ⟨hb1, envx, hrelx⟩ := hnms1 nm1 hrn
+          -- the environment with which the rest runs
+          have key : ∀ env1, Rel st1 nm1 env1 →
+              Post r1.next r2 st1 st' (fun fi => execB P fi ss env1) :=
+            fun env1 hr1 => ihB ss nm1 r1.next r2 env1 st1 st' hb hr1 hb1 hrun2
+          cases o1 with
+          | normal env1 =>
+            obtain ⟨hev1, n', hn', hr1⟩ := horel1
+            rw [hrn] at hn'; cases hn'
+            obtain ⟨hn2, hfr2, hnr2, htb2, htbd2, hnms2, f2, o2, hex2, horel2⟩ := key env1 hr1
+            have hev1' : r1.tree.eval st' = none := by rw [RTree.eval_frame hfr2 htb1]; exact hev1
+            refine ⟨by simp only; omega, hfr1.trans hfr2 hn1, NoRet_append hnr1 hnr2,
+              RTree.Below_seq (htb1.mono hn2) htb2, TreeBd_seq (TreeBd.frame hfr2 htb1 htbd1) htbd2, hnms2,
+              max f1 f2 + 1, o2, ?_, ?_⟩
+            · simp only [execB, execS_mono P (Nat.le_max_left f1 f2) _ _ _ hex1]
+              exact execB_mono P (Nat.le_max_right f1 f2) _ _ _ hex2
+            · cases o2 with
+              | normal env2 =>
+                obtain ⟨hev2, n2, hn2', hr2⟩ := horel2
+                exact ⟨by simp only [RTree.eval_seq, hev1', hev2], n2, hn2', hr2⟩
+              | returned vals =>
+                obtain ⟨lv, hev2, hrv⟩ := horel2
+                exact ⟨lv, by simp only [RTree.eval_seq, hev1', hev2], hrv⟩
+          | returned vals =>
+            obtain ⟨lv, hev1, hrv⟩ := horel1
+            obtain ⟨hn2, hfr2, hnr2, htb2, htbd2, hnms2, _, _, _, _⟩ := key envx hrelx
+            have hev1' : r1.tree.eval st' = some lv := by
+              rw [RTree.eval_frame hfr2 htb1]; exact hev1
+            refine ⟨by simp only; omega, hfr1.trans hfr2 hn1, NoRet_append hnr1 hnr2,
+              RTree.Below_seq (htb1.mono hn2) htb2, TreeBd_seq (TreeBd.frame hfr2 htb1 htbd1) htbd2, hnms2,
+              f1 + 1, .returned vals, ?_, lv, ?_, hrv⟩
+            · simp only [execB, hex1]
+            · simp only [RTree.eval_seq, hev1']
+
+theorem for_succ (P : Prog) (f : Nat) (ihB : BSound P f) (ihF : FSound P f) : FSound P (f + 1) := by
+  intro i cur c hi stp body nm next r env st st' h hrel hbel hrun
+  simp only [lowerFor] at h
+  split at h
+  · rename_i hholds
+    split at h
+    · rename_i hrange
+      cases hb : lowerB P f ([(i, .konst cur.toNat)] :: nm) next body with
+      | none => simp [hb] at h
+      | some r1 =>
+        simp only [hb] at h
+        have hcur : ((cur.toNat : Nat) : Int) = cur := Int.toNat_of_nonneg hrange.1
+        have hn31 : cur.toNat < 2 ^ 31 := by
+          have := hrange.2
+          omega
+        have hlv : loopVal cur = .num true 32 cur.toNat := by
+          have e : ofInt 32 cur = cur.toNat := by
+            have := ofInt_natCast (w := 32) (n := cur.toNat) (by omega)
+            rwa [hcur] at this
+          simp [loopVal, e]
+        have hrel0 : Rel st ([(i, .konst cur.toNat)] :: nm) ([(i, loopVal cur)] :: env) :=
+          ⟨⟨rfl, ⟨hn31, hlv⟩, trivial⟩, hrel⟩
+        have hbel0 : Below next ([(i, .konst cur.toNat)] :: nm) :=
+          Below.cons (BelowS.cons trivial (BelowS_nil _)) hbel
+        cases hrn : popN r1.nms with
+        | none =>
+          simp only [hrn, Option.some.injEq] at h
+          subst h
+          obtain ⟨h1, h2, h3, h4, h5, h6, fi, o, hex, horel⟩ :=
+            ihB body _ next r1 _ st st' hb hrel0 hbel0 hrun
+          have hnone : r1.nms = none := by
+            cases hx : r1.nms with
+            | none => rfl
+            | some _ => simp [popN, hx] at hrn
+          refine ⟨h1, h2, h3, h4, h5, (fun n' hn' => by cases hn'), fi + 1, o, ?_, ?_⟩
+          · simp only [execFor, hholds, if_true, hex]
+            cases o with
+            | normal env' =>
+              obtain ⟨_, n', hn', _⟩ := horel
+              rw [hnone] at hn'; cases hn'
+            | returned vals => rfl
+          · cases o with
+            | normal env' =>
+              obtain ⟨_, n', hn', _⟩ := horel
+              rw [hnone] at hn'; cases hn'
+            | returned vals => exact horel
+        | some nm1 =>
+          simp only [hrn] at h
+          cases hl2 : lowerFor P f i (cur + stp) c hi stp body nm1 r1.next with
+          | none => simp [hl2] at h
+          | some r2 =>
+            simp only [hl2, Option.some.injEq] at h
+            subst h
+            obtain ⟨st1, hrun1, hrun2⟩ := ssaSteps_split hrun
+            obtain ⟨hn1, hfr1, hnr1, htb1, htbd1, hnms1, f1, o1, hex1, horel1⟩ :=
+              ihB body _ next r1 _ st st1 hb hrel0 hbel0 hrun1
+            obtain ⟨n0, hn0, hnm1⟩ : ∃ n0, r1.nms = some n0 ∧ nm1 = n0.tail := by
+              cases hx : r1.nms with
+              | none => simp [popN, hx] at hrn
+              | some n0 => exact ⟨n0, rfl, by simpa [popN, hx] using hrn.symm⟩
+            obtain ⟨hb0, envx, hrelx⟩ := hnms1 n0 hn0
+            have hb1 : Below r1.next nm1 := by rw [hnm1]; exact hb0.tail'
+            have key : ∀ env1, Rel st1 nm1 env1 →
+                Post r1.next r2 st1 st' (fun fi => execFor P fi i (cur + stp) c hi stp body env1) :=
+              fun env1 hr1 => ihF i (cur + stp) c hi stp body nm1 r1.next r2 env1 st1 st' hl2 hr1 hb1 hrun2
+            cases o1 with
+            | normal env1 =>
+              obtain ⟨hev1, n', hn', hr1⟩ := horel1
+              rw [hn0] at hn'; cases hn'
+              obtain ⟨hn2, hfr2, hnr2, htb2, htbd2, hnms2, f2, o2, hex2, horel2⟩ :=
+                key env1.tail (by rw [hnm1]; exact hr1.tail)
+              have hev1' : r1.tree.eval st' = none := by rw [RTree.eval_frame hfr2 htb1]; exact hev1
+              refine ⟨by simp only; omega, hfr1.trans hfr2 hn1, NoRet_append hnr1 hnr2,
+                RTree.Below_seq (htb1.mono hn2) htb2, TreeBd_seq (TreeBd.frame hfr2 htb1 htbd1) htbd2, hnms2,
+                max f1 f2 + 1, o2, ?_, ?_⟩
+              · simp only [execFor, hholds, if_true, execB_mono P (Nat.le_max_left f1 f2) _ _ _ hex1]
+                exact execFor_mono P (Nat.le_max_right f1 f2) _ _ _ _ _ _ _ _ hex2
+              · cases o2 with
+                | normal env2 =>
+                  obtain ⟨hev2, n2, hn2', hr2⟩ := horel2
+                  exact ⟨by simp only [RTree.eval_seq, hev1', hev2], n2, hn2', hr2⟩
+                | returned vals =>
+
+                  obtain ⟨lv, hev2, hrv⟩ := horel2
+
+                  exact ⟨lv, by simp only [RTree.eval_seq, hev1', hev2], hrv⟩
+            | returned vals =>
+              obtain ⟨lv, hev1, hrv⟩ := horel1
+              obtain ⟨hn2, hfr2, hnr2, htb2, htbd2, hnms2, _, _, _, _⟩ :=
+                key envx.tail (by rw [hnm1]; exact hrelx.tail)
+              have hev1' : r1.tree.eval st' = some lv := by
+                rw [RTree.eval_frame hfr2 htb1]; exact hev1
+              refine ⟨by simp only; omega, hfr1.trans hfr2 hn1, NoRet_append hnr1 hnr2,
+                RTree.Below_seq (htb1.mono hn2) htb2, TreeBd_seq (TreeBd.frame hfr2 htb1 htbd1) htbd2, hnms2,
+                f1 + 1, .returned vals, ?_, lv, ?_, hrv⟩
+              · simp only [execFor, hholds, if_true, hex1]
+              · simp only [RTree.eval_seq, hev1']
+    · cases h
+  · rename_i hholds
+    simp only [Option.some.injEq] at h
+    subst h
+    simp only [ssaSteps, Option.some.injEq] at hrun; subst hrun
+    exact ⟨Nat.le_refl _, Frame.refl _ _, NoRet_nil, trivial, trivial,
+      (fun n' hn' => by cases hn'; exact ⟨hbel, env, hrel⟩), 1, .normal env,
+      by simp [execFor, hholds], rfl, nm, rfl, hrel⟩
+
+
+/-- Expressions, argument lists, calls, result lists, statements, blocks and
+unrolled loops of the fragment: if the emitted code runs from `st` to `st'`, the
+interpreter is defined and its result is the one the lowered code describes at
+`st'`. -/
+theorem lower_all_sound (P : Prog) : ∀ f : Nat,
+    ESound P f ∧ ArgsSound P f ∧ CallSound P f ∧ RetSound P f ∧ SSound P f ∧ BSound P f ∧ FSound P f := by
   intro f
   induction f with
-  | zero => refine ⟨?_, ?_, ?_⟩ <;> intros <;> simp_all [lowerS, lowerB, lowerFor]
+  | zero =>
+    refine ⟨?_, ?_, ?_, ?_, ?_, ?_, ?_⟩
+    · intro e nm next aa t code next' env st st' h; simp [lowerE] at h
+    · intro es nm next avs code next' env st st' h; simp [lowerArgs] at h
+    · intro nm g args next rs code next' env st st' h; simp [lowerCall] at h
+    · intro es nm next rs code next' env st st' h; simp [lowerRet] at h
+    · intro s nm next r env st st' h; simp [lowerS] at h
+    · intro ss nm next r env st st' h; simp [lowerB] at h
+    · intro i cur c hi stp body nm next r env st st' h; simp [lowerFor] at h
   | succ f ih =>
-    obtain ⟨_ihS, ihB, ihF⟩ := ih
-    refine ⟨?_, ?_, ?_⟩
-    · -- statements
-      intro s nm next r env st st' h hrel hbel hrun
-      cases s with
-      | decl x t init =>
-        cases init with
-        | none =>
-          simp only [lowerS] at h
-          cases hz : zeroArg t with
-          | none => simp [hz] at h
-          | some z =>
-            cases hw : sbits t with
-            | none => simp [hz, hw] at h
-            | some w =>
-              simp only [hz, hw, Option.some.injEq] at h
-              subst h
-              obtain ⟨b, hb⟩ := zeroArg_val hz st
-              have hst' := mov_step hrun hb (two_pow_pos w)
-              have hfr : Frame next st st' := by rw [hst']; exact Frame_set (Nat.le_refl _)
-              have hs0 : st' next = 0 := by rw [hst']; simp
-              refine post_basic (env.declare x (t.decode 0)) 1 (Nat.le_refl _) hfr (NoRet_one (by simp [movI]))
-                ((hbel.mono (Nat.le_succ _)).declare (by simp [BelowB])) ?_ ?_
-              · exact Rel.declare (bindRel_val hw hs0 (two_pow_pos w)) (hrel.frame hbel hfr)
-              · simp [execS, zero_decode hw]
-        | some e =>
-          simp only [lowerS] at h
-          cases hl : lowerE nm e next with
-          | none => simp [hl] at h
-          | some q =>
-            obtain ⟨aa, te, ce, n1⟩ := q
-            simp only [hl] at h
-            cases hw : sbits t with
-            | none => simp [hw] at h
-            | some w =>
-              simp only [hw] at h
-              split at h
-              · rename_i hte
-                have := tyEq_eq hte; subst this
-                simp only [Option.some.injEq] at h
-                subst h
-                obtain ⟨st1, hrun1, hrun2⟩ := ssaSteps_split hrun
-                obtain ⟨w1, wa, a, f1, hw1, harg, hlt, hle, _, _, he, hfr1, hn1, hnr1, _⟩ :=
-                  lowerE_sound P e nm next aa t ce n1 env st st1 hl hrel hbel hrun1
-                rw [hw] at hw1; cases hw1
-                have haw : a < 2 ^ w := Nat.lt_of_lt_of_le hlt (pow_le_of_le hle)
-                have hst' := mov_step hrun2 harg haw
-                have hfr : Frame next st st' := hfr1.trans (by rw [hst']; exact Frame_set (Nat.le_refl _)) hn1
-                have hs0 : st' n1 = a := by rw [hst']; simp
-                refine post_basic (env.declare x (t.decode a)) (f1 + 1) hn1 hfr
-                  (NoRet_append hnr1 (NoRet_one (by simp [movI])))
-                  ((hbel.mono (by omega)).declare (by simp [BelowB])) ?_ ?_
-                · exact Rel.declare (bindRel_val hw hs0 haw) (hrel.frame hbel hfr)
-                · simp [execS, he, hasTy_decode hw]
-              · cases h
-      | define xs e =>
-        match xs, h with
-        | [x], h =>
-          simp only [lowerS] at h
-          cases hl : lowerE nm e next with
-          | none => simp [hl] at h
-          | some q =>
-            obtain ⟨aa, te, ce, n1⟩ := q
-            simp only [hl] at h
-            split at h
-            · cases h
-            · cases hw : sbits te with
-              | none => simp [hw] at h
-              | some w =>
-                simp only [hw, Option.some.injEq] at h
-                subst h
-                obtain ⟨st1, hrun1, hrun2⟩ := ssaSteps_split hrun
-                obtain ⟨w1, wa, a, f1, hw1, harg, hlt, hle, _, _, he, hfr1, hn1, hnr1, _⟩ :=
-                  lowerE_sound P e nm next aa te ce n1 env st st1 hl hrel hbel hrun1
-                rw [hw] at hw1; cases hw1
-                have haw : a < 2 ^ w := Nat.lt_of_lt_of_le hlt (pow_le_of_le hle)
-                have hst' := mov_step hrun2 harg haw
-                have hfr : Frame next st st' := hfr1.trans (by rw [hst']; exact Frame_set (Nat.le_refl _)) hn1
-                have hs0 : st' n1 = a := by rw [hst']; simp
-                refine post_basic (env.declare x (te.decode a)) (f1 + 1) hn1 hfr
-                  (NoRet_append hnr1 (NoRet_one (by simp [movI])))
-                  ((hbel.mono (by omega)).declare (by simp [BelowB])) ?_ ?_
-                · exact Rel.declare (bindRel_val hw hs0 haw) (hrel.frame hbel hfr)
-                · simp [execS, he]
-        | [], h => simp [lowerS] at h
-        | _ :: _ :: _, h => simp [lowerS] at h
-      | assign lvs e =>
-        match lvs, h with
-        | [⟨x, []⟩], h =>
-          simp only [lowerS] at h
-          cases hf0 : nm.find x with
-          | none => simp [hf0] at h
-          | some b0 =>
-            cases b0 with
-            | konst _ => simp [hf0] at h
-            | val id0 tx =>
-              cases hl : lowerE nm e next with
-              | none => simp [hf0, hl] at h
-              | some q =>
-                obtain ⟨aa, te, ce, n1⟩ := q
-                simp only [hf0, hl] at h
-                cases hw : sbits tx with
-                | none => simp [hw] at h
-                | some w =>
-                  cases hset : nm.set x (.val n1 tx) with
-                  | none => simp [hw, hset] at h
-                  | some nm' =>
-                    simp only [hw, hset] at h
-                    split at h
-                    · rename_i hte
-                      have := tyEq_eq hte; subst this
-                      simp only [Option.some.injEq] at h
-                      subst h
-                      obtain ⟨st1, hrun1, hrun2⟩ := ssaSteps_split hrun
-                      obtain ⟨w1, wa, a, f1, hw1, harg, hlt, hle, _, _, he, hfr1, hn1, hnr1, _⟩ :=
-                        lowerE_sound P e nm next aa tx ce n1 env st st1 hl hrel hbel hrun1
-                      rw [hw] at hw1; cases hw1
-                      have haw : a < 2 ^ w := Nat.lt_of_lt_of_le hlt (pow_le_of_le hle)
-                      have hst' := mov_step hrun2 harg haw
-                      have hfr : Frame next st st' :=
-                        hfr1.trans (by rw [hst']; exact Frame_set (Nat.le_refl _)) hn1
-                      have hs0 : st' n1 = a := by rw [hst']; simp
-                      have hrel' : Rel st' nm env := hrel.frame hbel hfr
-                      obtain ⟨v0, hlook, hbv0⟩ := Rel.find hrel _ hf0
-                      obtain ⟨w0, hw0, _, hv0⟩ := hbv0
-                      obtain ⟨env', hes, hrel2⟩ := Rel.set (bindRel_val hw hs0 haw) hrel' hset
-                      refine post_basic env' (f1 + 1) hn1 hfr (NoRet_append hnr1 (NoRet_one (by simp [movI])))
-                        (Below.set (hbel.mono (by omega)) (by simp [BelowB]) hset) hrel2 ?_
-                      have hsh : (tx.decode (st id0)).sameShape (tx.decode a) = true := sameShape_decode _ _ hw
-                      simp [execS, he, assignTo, hlook, hv0, Val.update, hsh, hes]
-                    · cases h
-        | [], h => simp [lowerS] at h
-        | ⟨_, _ :: _⟩ :: _, h => simp [lowerS] at h
-        | ⟨_, []⟩ :: _ :: _, h => simp [lowerS] at h
-      | ifte c th el =>
-        simp only [lowerS] at h
-        cases hl : lowerE nm c next with
-        | none => simp [hl] at h
-        | some q =>
-          obtain ⟨ac, tc, cc, n1⟩ := q
-          simp only [hl] at h
-          cases ac with
-          | var cid cw =>
-            cases tc with
-            | bool =>
-              simp only at h
-              cases hlt : lowerB f ([] :: nm) n1 th with
-              | none => simp [hlt] at h
-              | some rt =>
-                simp only [hlt] at h
-                cases hlf : lowerB f ([] :: nm) rt.next el with
-                | none => simp [hlf] at h
-                | some rf =>
-                  simp only [hlf] at h
-                  cases hj : joinN cid (popN rt.nms) (popN rf.nms) rf.next with
-                  | none => simp [hj] at h
-                  | some q2 =>
-                    obtain ⟨nms', cm, n4⟩ := q2
-                    simp only [hj, Option.some.injEq] at h
-                    subst h
-                    -- split the run
-                    obtain ⟨st3, hrun123, hrun4⟩ := ssaSteps_split hrun
-                    obtain ⟨st2, hrun12, hrun3⟩ := ssaSteps_split hrun123
-                    obtain ⟨st1, hrun1, hrun2⟩ := ssaSteps_split hrun12
-                    obtain ⟨w1, wa, a, fc, hw1, harg, hlta, hle, hor, _, he, hfr1, hn1, hnr1, hab⟩ :=
-                      lowerE_sound P c nm next (.var cid cw) .bool cc n1 env st st1 hl hrel hbel hrun1
-                    simp only [sbits, Option.some.injEq] at hw1; subst hw1
-                    have hwa : wa = 1 := by
-                      rcases hor with e | e
-                      · exact e
-                      · simp [SArg.isConst] at e
-                    subst hwa
-                    simp only [argVal, SStore.get, Prod.mk.injEq] at harg
-                    obtain ⟨hca, _⟩ := harg
-                    have hcid : cid < n1 := hab
-                    have hrel1 : Rel st1 nm env := hrel.frame hbel hfr1
-                    have hbel1 : Below n1 nm := hbel.mono hn1
-                    have hbelp : Below n1 ([] :: nm) := Below.cons (BelowS_nil _) hbel1
-                    obtain ⟨hnt, hfrt, hnrt, htbt, htbdt, hnmst, ft, ot, hext, horelt⟩ :=
-                      ihB th ([] :: nm) n1 rt ([] :: env) st1 st2 hlt hrel1.push hbelp hrun2
-                    have hrel2 : Rel st2 ([] :: nm) ([] :: env) := (hrel1.push).frame hbelp hfrt
-                    obtain ⟨hnf, hfrf, hnrf, htbf, htbdf, hnmsf, ff, of, hexf, horelf⟩ :=
-                      ihB el ([] :: nm) rt.next rf ([] :: env) st2 st3 hlf hrel2 (hbelp.mono hnt) hrun3
-                    have hbt : ∀ n, popN rt.nms = some n → Below rf.next n := by
-                      intro n hn
-                      cases hrn : rt.nms with
-                      | none => simp [popN, hrn] at hn
-                      | some n0 =>
-                        simp only [popN, hrn, Option.map_some, Option.some.injEq] at hn
-                        subst hn
-                        exact ((hnmst n0 hrn).1.mono hnf).tail'
-                    have hbf : ∀ n, popN rf.nms = some n → Below rf.next n := by
-                      intro n hn
-                      cases hrn : rf.nms with
-                      | none => simp [popN, hrn] at hn
-                      | some n0 =>
-                        simp only [popN, hrn, Option.map_some, Option.some.injEq] at hn
-                        subst hn
-                        exact (hnmsf n0 hrn).1.tail'
-                    obtain ⟨hk4, hnr4, hbl4, hs4⟩ := joinN_sound cid (popN rt.nms) (popN rf.nms) rf.next nms' cm n4 hj
-                      (by omega) hbt hbf
-                    obtain ⟨st4, hrun4', hfr4, hjt, hjf, hjex⟩ := hs4 st3
-                    have hst4 : st4 = st' := by
-                      have := hrun4'.symm.trans hrun4
-                      exact Option.some.inj this
-                    subst hst4
-                    have hfr13 : Frame n1 st1 st3 := hfrt.trans hfrf hnt
-                    have hfr14 : Frame n1 st1 st4 := hfr13.trans hfr4 (by omega)
-                    have hc3 : st3 cid = a := by rw [hfr13 cid hcid]; exact hca
-                    have hc4 : st4 cid = a := by rw [hfr14 cid hcid]; exact hca
-                    have ha2 : a < 2 := by simpa using hlta
-                    -- the trees at the final store
-                    have hfr24 : Frame rt.next st2 st4 := hfrf.trans hfr4 hnf
-                    have hevt : rt.tree.eval st4 = rt.tree.eval st2 := RTree.eval_frame hfr24 htbt
-                    have hevf : rf.tree.eval st4 = rf.tree.eval st3 := RTree.eval_frame hfr4 htbf
-                    -- related environments exist for the outgoing bindings of both branches
-                    have hext3 : ∀ n, popN rt.nms = some n → ∃ env, Rel st3 n env := by
-                      intro n hn
-                      cases hrn : rt.nms with
-                      | none => simp [popN, hrn] at hn
-                      | some n0 =>
-                        simp only [popN, hrn, Option.map_some, Option.some.injEq] at hn
-                        subst hn
-                        obtain ⟨hb0, env0, hr0⟩ := hnmst n0 hrn
-                        exact ⟨env0.tail, (hr0.frame hb0 hfrf).tail⟩
-                    have hexf3 : ∀ n, popN rf.nms = some n → ∃ env, Rel st3 n env := by
-                      intro n hn
-                      cases hrn : rf.nms with
-                      | none => simp [popN, hrn] at hn
-                      | some n0 =>
-                        simp only [popN, hrn, Option.map_some, Option.some.injEq] at hn
-                        subst hn
-                        obtain ⟨_, env0, hr0⟩ := hnmsf n0 hrn
-                        exact ⟨env0.tail, hr0.tail⟩
-                    refine ⟨by simp only; omega, ?_, ?_, ?_, ?_, ?_, ?_⟩
-                    · exact (hfr1.trans hfr14 hn1)
-                    · exact NoRet_append (NoRet_append (NoRet_append hnr1 hnrt) hnrf) hnr4
-                    · exact ⟨by simp only; omega, htbt.mono (by simp only; omega), htbf.mono (by simp only; omega)⟩
-                    · exact ⟨TreeBd.frame hfr24 htbt htbdt, TreeBd.frame hfr4 htbf htbdf⟩
-                    · intro n' hn'
-                      exact ⟨hbl4 n' hn', hjex hext3 hexf3 n' hn'⟩
-                    · -- the interpreter
-                      have hdec : Ty.decode .bool a = .bool (a % 2 == 1) := rfl
-                      by_cases hcc : a % 2 = 1
-                      · -- condition true
-                        have hcv : evalE P fc c env = some (.bool true) := by rw [he, hdec]; simp [hcc]
-                        have hc3' : st3 cid % 2 = 1 := by rw [hc3]; exact hcc
-                        refine ⟨max fc ft + 1, ot.pop, ?_, ?_⟩
-                        · simp only [execS, evalE_mono P (Nat.le_max_left fc ft) c env _ hcv,
-                            execB_mono P (Nat.le_max_right fc ft) _ _ _ hext, Option.map_some]
-                        · cases ot with
-                          | normal envt =>
-                            obtain ⟨hev, n0, hrn, hr0⟩ := horelt
-                            have hpop : popN rt.nms = some n0.tail := by simp [popN, hrn]
-                            have hb0 := (hnmst n0 hrn).1
-                            obtain ⟨n', hn', hr'⟩ := hjt hc3' n0.tail envt.tail hpop ((hr0.frame hb0 hfrf).tail)
-                            refine ⟨?_, n', hn', hr'⟩
-                            simp only [RTree.eval, hc4, hcc, if_true, hevt, hev]
-                          | returned vals =>
-                            obtain ⟨hev, hsc⟩ := horelt
-                            refine ⟨?_, hsc⟩
-                            simp only [RTree.eval, hc4, hcc, if_true, hevt, hev]
-                      · -- condition false
-                        have hcv : evalE P fc c env = some (.bool false) := by rw [he, hdec]; simp [hcc]
-                        have hc3' : st3 cid % 2 ≠ 1 := by rw [hc3]; exact hcc
-                        refine ⟨max fc ff + 1, of.pop, ?_, ?_⟩
-                        · simp only [execS, evalE_mono P (Nat.le_max_left fc ff) c env _ hcv,
-                            execB_mono P (Nat.le_max_right fc ff) _ _ _ hexf, Option.map_some]
-                        · cases of with
-                          | normal envf =>
-                            obtain ⟨hev, n0, hrn, hr0⟩ := horelf
-                            have hpop : popN rf.nms = some n0.tail := by simp [popN, hrn]
-                            obtain ⟨n', hn', hr'⟩ := hjf hc3' n0.tail envf.tail hpop hr0.tail
-                            refine ⟨?_, n', hn', hr'⟩
-                            simp only [RTree.eval, hc4, hcc, if_false, hevf, hev]
-                          | returned vals =>
-                            obtain ⟨hev, hsc⟩ := horelf
-                            refine ⟨?_, hsc⟩
-                            simp only [RTree.eval, hc4, hcc, if_false, hevf, hev]
-            | int _ => simp at h
-            | uint _ => simp at h
-            | arr _ _ => simp at h
-            | struct _ => simp at h
-          | const _ _ _ _ _ => simp at h
-          | pat _ _ => simp at h
-          | k _ => simp at h
-      | «for» i lo c hi stp body =>
-        simp only [lowerS] at h
-        obtain ⟨h1, h2, h3, h4, h5, h6, fi, o, hex, horel⟩ := ihF i lo c hi stp body nm next r env st st' h hrel hbel hrun
-        exact ⟨h1, h2, h3, h4, h5, h6, fi + 1, o, by simp only [execS]; exact hex, horel⟩
-      | ret es =>
-        simp only [lowerS] at h
-        cases hl : lowerRet nm es next with
-        | none => simp [hl] at h
-        | some q =>
-          obtain ⟨rs, code, n1⟩ := q
-          simp only [hl, Option.some.injEq] at h
-          subst h
-          obtain ⟨f1, vals, hm, hmap, hsc, hfr, hn1, hnr, hrs, hbd⟩ :=
-            lowerRet_sound P es nm next rs code n1 env st st' hl hrel hbel hrun
-          refine ⟨hn1, hfr, hnr, hrs, hbd, (fun n' hn' => by cases hn'), f1 + 1, .returned vals, ?_, ?_, hsc⟩
-          · simp [execS, hm]
-          · simp only [RTree.eval, hmap]
-    · -- blocks
-      intro ss nm next r env st st' h hrel hbel hrun
-      cases ss with
-      | nil =>
-        simp only [lowerB, Option.some.injEq] at h
-        subst h
-        simp only [ssaSteps, Option.some.injEq] at hrun; subst hrun
-        exact ⟨Nat.le_refl _, Frame.refl _ _, NoRet_nil, trivial, trivial,
-          (fun n' hn' => by cases hn'; exact ⟨hbel, env, hrel⟩), 1, .normal env, by simp [execB], rfl, nm, rfl, hrel⟩
-      | cons s ss =>
-        simp only [lowerB] at h
-        cases hs : lowerS f nm next s with
-        | none => simp [hs] at h
-        | some r1 =>
-          simp only [hs] at h
-          cases hrn : r1.nms with
-          | none =>
-            simp only [hrn] at h
-            cases ss with
-            | nil =>
-              simp only [Option.some.injEq] at h
-              subst h
-              obtain ⟨h1, h2, h3, h4, h5, h6, fi, o, hex, horel⟩ := _ihS s nm next r1 env st st' hs hrel hbel hrun
-              refine ⟨h1, h2, h3, h4, h5, h6, fi + 1, o, ?_, horel⟩
-              simp only [execB, hex]
-              cases o with
-              | normal env' =>
-                obtain ⟨_, n', hn', _⟩ := horel
-                rw [hrn] at hn'; cases hn'
-              | returned vals => rfl
-            | cons _ _ => simp at h
-          | some nm1 =>
-            simp only [hrn] at h
-            cases hb : lowerB f nm1 r1.next ss with
-            | none => simp [hb] at h
-            | some r2 =>
-              simp only [hb, Option.some.injEq] at h
-              subst h
-              obtain ⟨st1, hrun1, hrun2⟩ := ssaSteps_split hrun
-              obtain ⟨hn1, hfr1, hnr1, htb1, htbd1, hnms1, f1, o1, hex1, horel1⟩ :=
-                _ihS s nm next r1 env st st1 hs hrel hbel hrun1
-              obtain ⟨hb1, envx, hrelx⟩ := hnms1 nm1 hrn
-              -- the environment with which the rest runs
-              have key : ∀ env1, Rel st1 nm1 env1 →
-                  Post r1.next r2 st1 st' (fun fi => execB P fi ss env1) :=
-                fun env1 hr1 => ihB ss nm1 r1.next r2 env1 st1 st' hb hr1 hb1 hrun2
-              cases o1 with
-              | normal env1 =>
-                obtain ⟨hev1, n', hn', hr1⟩ := horel1
-                rw [hrn] at hn'; cases hn'
-                obtain ⟨hn2, hfr2, hnr2, htb2, htbd2, hnms2, f2, o2, hex2, horel2⟩ := key env1 hr1
-                have hev1' : r1.tree.eval st' = none := by rw [RTree.eval_frame hfr2 htb1]; exact hev1
-                refine ⟨by simp only; omega, hfr1.trans hfr2 hn1, NoRet_append hnr1 hnr2,
-                  RTree.Below_seq (htb1.mono hn2) htb2, TreeBd_seq (TreeBd.frame hfr2 htb1 htbd1) htbd2, hnms2,
-                  max f1 f2 + 1, o2, ?_, ?_⟩
-                · simp only [execB, execS_mono P (Nat.le_max_left f1 f2) _ _ _ hex1]
-                  exact execB_mono P (Nat.le_max_right f1 f2) _ _ _ hex2
-                · cases o2 with
-                  | normal env2 =>
-                    obtain ⟨hev2, n2, hn2', hr2⟩ := horel2
-                    exact ⟨by simp only [RTree.eval_seq, hev1', hev2], n2, hn2', hr2⟩
-                  | returned vals =>
-                    obtain ⟨hev2, hsc⟩ := horel2
-                    exact ⟨by simp only [RTree.eval_seq, hev1', hev2], hsc⟩
-              | returned vals =>
-                obtain ⟨hev1, hsc⟩ := horel1
-                obtain ⟨hn2, hfr2, hnr2, htb2, htbd2, hnms2, _, _, _, _⟩ := key envx hrelx
-                have hev1' : r1.tree.eval st' = some (vals.map Val.encode) := by
-                  rw [RTree.eval_frame hfr2 htb1]; exact hev1
-                refine ⟨by simp only; omega, hfr1.trans hfr2 hn1, NoRet_append hnr1 hnr2,
-                  RTree.Below_seq (htb1.mono hn2) htb2, TreeBd_seq (TreeBd.frame hfr2 htb1 htbd1) htbd2, hnms2,
-                  f1 + 1, .returned vals, ?_, ?_, hsc⟩
-                · simp only [execB, hex1]
-                · simp only [RTree.eval_seq, hev1']
-    · -- unrolled loops
-      intro i cur c hi stp body nm next r env st st' h hrel hbel hrun
-      simp only [lowerFor] at h
-      split at h
-      · rename_i hholds
-        split at h
-        · rename_i hrange
-          cases hb : lowerB f ([(i, .konst cur.toNat)] :: nm) next body with
-          | none => simp [hb] at h
-          | some r1 =>
-            simp only [hb] at h
-            have hcur : ((cur.toNat : Nat) : Int) = cur := Int.toNat_of_nonneg hrange.1
-            have hn31 : cur.toNat < 2 ^ 31 := by
-              have := hrange.2
-              omega
-            have hlv : loopVal cur = .num true 32 cur.toNat := by
-              have e : ofInt 32 cur = cur.toNat := by
-                have := ofInt_natCast (w := 32) (n := cur.toNat) (by omega)
-                rwa [hcur] at this
-              simp [loopVal, e]
-            have hrel0 : Rel st ([(i, .konst cur.toNat)] :: nm) ([(i, loopVal cur)] :: env) :=
-              ⟨⟨rfl, ⟨hn31, hlv⟩, trivial⟩, hrel⟩
-            have hbel0 : Below next ([(i, .konst cur.toNat)] :: nm) :=
-              Below.cons (BelowS.cons trivial (BelowS_nil _)) hbel
-            cases hrn : popN r1.nms with
-            | none =>
-              simp only [hrn, Option.some.injEq] at h
-              subst h
-              obtain ⟨h1, h2, h3, h4, h5, h6, fi, o, hex, horel⟩ :=
-                ihB body _ next r1 _ st st' hb hrel0 hbel0 hrun
-              have hnone : r1.nms = none := by
-                cases hx : r1.nms with
-                | none => rfl
-                | some _ => simp [popN, hx] at hrn
-              refine ⟨h1, h2, h3, h4, h5, (fun n' hn' => by cases hn'), fi + 1, o, ?_, ?_⟩
-              · simp only [execFor, hholds, if_true, hex]
-                cases o with
-                | normal env' =>
-                  obtain ⟨_, n', hn', _⟩ := horel
-                  rw [hnone] at hn'; cases hn'
-                | returned vals => rfl
-              · cases o with
-                | normal env' =>
-                  obtain ⟨_, n', hn', _⟩ := horel
-                  rw [hnone] at hn'; cases hn'
-                | returned vals => exact horel
-            | some nm1 =>
-              simp only [hrn] at h
-              cases hl2 : lowerFor f i (cur + stp) c hi stp body nm1 r1.next with
-              | none => simp [hl2] at h
-              | some r2 =>
-                simp only [hl2, Option.some.injEq] at h
-                subst h
-                obtain ⟨st1, hrun1, hrun2⟩ := ssaSteps_split hrun
-                obtain ⟨hn1, hfr1, hnr1, htb1, htbd1, hnms1, f1, o1, hex1, horel1⟩ :=
-                  ihB body _ next r1 _ st st1 hb hrel0 hbel0 hrun1
-                obtain ⟨n0, hn0, hnm1⟩ : ∃ n0, r1.nms = some n0 ∧ nm1 = n0.tail := by
-                  cases hx : r1.nms with
-                  | none => simp [popN, hx] at hrn
-                  | some n0 => exact ⟨n0, rfl, by simpa [popN, hx] using hrn.symm⟩
-                obtain ⟨hb0, envx, hrelx⟩ := hnms1 n0 hn0
-                have hb1 : Below r1.next nm1 := by rw [hnm1]; exact hb0.tail'
-                have key : ∀ env1, Rel st1 nm1 env1 →
-                    Post r1.next r2 st1 st' (fun fi => execFor P fi i (cur + stp) c hi stp body env1) :=
-                  fun env1 hr1 => ihF i (cur + stp) c hi stp body nm1 r1.next r2 env1 st1 st' hl2 hr1 hb1 hrun2
-                cases o1 with
-                | normal env1 =>
-                  obtain ⟨hev1, n', hn', hr1⟩ := horel1
-                  rw [hn0] at hn'; cases hn'
-                  obtain ⟨hn2, hfr2, hnr2, htb2, htbd2, hnms2, f2, o2, hex2, horel2⟩ :=
-                    key env1.tail (by rw [hnm1]; exact hr1.tail)
-                  have hev1' : r1.tree.eval st' = none := by rw [RTree.eval_frame hfr2 htb1]; exact hev1
-                  refine ⟨by simp only; omega, hfr1.trans hfr2 hn1, NoRet_append hnr1 hnr2,
-                    RTree.Below_seq (htb1.mono hn2) htb2, TreeBd_seq (TreeBd.frame hfr2 htb1 htbd1) htbd2, hnms2,
-                    max f1 f2 + 1, o2, ?_, ?_⟩
-                  · simp only [execFor, hholds, if_true, execB_mono P (Nat.le_max_left f1 f2) _ _ _ hex1]
-                    exact execFor_mono P (Nat.le_max_right f1 f2) _ _ _ _ _ _ _ _ hex2
-                  · cases o2 with
-                    | normal env2 =>
-                      obtain ⟨hev2, n2, hn2', hr2⟩ := horel2
-                      exact ⟨by simp only [RTree.eval_seq, hev1', hev2], n2, hn2', hr2⟩
-                    | returned vals =>
-                      obtain ⟨hev2, hsc⟩ := horel2
-                      exact ⟨by simp only [RTree.eval_seq, hev1', hev2], hsc⟩
-                | returned vals =>
-                  obtain ⟨hev1, hsc⟩ := horel1
-                  obtain ⟨hn2, hfr2, hnr2, htb2, htbd2, hnms2, _, _, _, _⟩ :=
-                    key envx.tail (by rw [hnm1]; exact hrelx.tail)
-                  have hev1' : r1.tree.eval st' = some (vals.map Val.encode) := by
-                    rw [RTree.eval_frame hfr2 htb1]; exact hev1
-                  refine ⟨by simp only; omega, hfr1.trans hfr2 hn1, NoRet_append hnr1 hnr2,
-                    RTree.Below_seq (htb1.mono hn2) htb2, TreeBd_seq (TreeBd.frame hfr2 htb1 htbd1) htbd2, hnms2,
-                    f1 + 1, .returned vals, ?_, ?_, hsc⟩
-                  · simp only [execFor, hholds, if_true, hex1]
-                  · simp only [RTree.eval_seq, hev1']
-        · cases h
-      · rename_i hholds
-        simp only [Option.some.injEq] at h
-        subst h
-        simp only [ssaSteps, Option.some.injEq] at hrun; subst hrun
-        exact ⟨Nat.le_refl _, Frame.refl _ _, NoRet_nil, trivial, trivial,
-          (fun n' hn' => by cases hn'; exact ⟨hbel, env, hrel⟩), 1, .normal env,
-          by simp [execFor, hholds], rfl, nm, rfl, hrel⟩
+    obtain ⟨ihE, ihA, ihC, ihR, ihS, ihB, ihF⟩ := ih
+    exact ⟨expr_succ P f ihE ihC, args_succ P f ihE ihA, call_succ P f ihA ihB, ret_succ P f ihE ihR,
+      stmt_succ P f ihE ihC ihR ihB ihF, block_succ P f ihS ihB, for_succ P f ihB ihF⟩
 
 end Mpc.Mpcl.Ssa
